@@ -82,7 +82,7 @@ def entryOkRmMemB (e : Entry) : Bool :=
   match e.rule.ops, e.kinds with
   | [f0, f2], [k0, _] =>
     !e.rule.bcst || !anyMemAlt f2 || lFromBcst e (finalOpM e 0x6B (bcstSizeOf e)) ||
-    ((e.enc == 0x68 || e.enc == 0x6B) && (memCoreOkB e (finalOpM e 0x6B (bcstSizeOf e)) 0 &&
+    ((e.enc == 0x68 || e.enc == 0x6B || e.enc == 0x83 || e.enc == 0x84) && (memCoreOkB e (finalOpM e 0x6B (bcstSizeOf e)) 0 &&
     (f0.role == .reg && (f2.role == .rm && (plainKind k0 && (noFix f0 && formOpMatches e.rule.oszEff f0 (.reg k0 0)))))))
   | _, _ => false
 
